@@ -246,6 +246,46 @@ func c16NoMustCompileComputed(p *Prog) *RuleResult {
 // same-file inlining knows about assignment targets; the print-time inlining has to as well. Rule:
 // the direct inlining sites of printExpr (the EDot and EIndex arms) are conditional on the flags
 // that say the expression is being written or deleted.
+// isOwnNodeOfExprParam: v is `n.F` where n was type-asserted from the Data field of the function's
+// parameter `expr` itself (no other type assertion in between, which would make n a child node).
+func isOwnNodeOfExprParam(v ssa.Value) bool {
+	ld, ok := v.(*ssa.UnOp)
+	if !ok || ld.Op != token.MUL {
+		return false
+	}
+	fa, ok := ld.X.(*ssa.FieldAddr)
+	if !ok {
+		return false
+	}
+	var ta *ssa.TypeAssert
+	switch b := fa.X.(type) {
+	case *ssa.TypeAssert:
+		ta = b
+	case *ssa.Extract:
+		ta, _ = b.Tuple.(*ssa.TypeAssert)
+	}
+	if ta == nil {
+		return false
+	}
+	own := false
+	operandSlice(ta.X, func(x ssa.Value) bool {
+		switch y := x.(type) {
+		case *ssa.TypeAssert:
+			return false
+		case *ssa.Parameter:
+			if y.Name() == "expr" {
+				own = true
+			}
+		case *ssa.Alloc:
+			if y.Comment == "expr" {
+				own = true
+			}
+		}
+		return true
+	})
+	return own
+}
+
 func c06EnumInliningNotOnTargets(p *Prog) *RuleResult {
 	r := NewRule("C06/R11 enum-inlining-not-on-write-targets", "the print-time inlining of cross-module enum members in the EDot / EIndex arms of printExpr is conditional on the access not being an assignment, update or delete target")
 	fn := p.FindFunc("js_printer.(*printer).printExpr")
@@ -273,7 +313,11 @@ func c06EnumInliningNotOnTargets(p *Prog) *RuleResult {
 		if !ok || field != "Target" || (owner != "js_ast.EDot" && owner != "js_ast.EIndex") {
 			return
 		}
-		// exclude sites inside the template / index sub-cases that look at a *child* node
+		// exclude sites inside the template / index sub-cases that look at a *child* node: the node whose
+		// Target is passed is the one asserted from the Data of printExpr's own expression parameter
+		if !isOwnNodeOfExprParam(c.Call.Args[1]) {
+			return
+		}
 		arm := ""
 		for _, f := range factsAt(b) {
 			if ta, ok := f.Cond.(*ssa.Extract); ok && f.True {
@@ -284,9 +328,25 @@ func c06EnumInliningNotOnTargets(p *Prog) *RuleResult {
 		}
 		_ = arm
 		// the printing that follows: the call's block must lead to a printNumber / printQuotedUTF16
+		// (directly, or a helper of the printer that is handed the value found)
+		printsValue := func(c2 *ssa.Call) bool {
+			if c2.Call.StaticCallee() == nil || pkgPathOf(c2.Call.StaticCallee()) != modPath+"/internal/js_printer" || strings.HasPrefix(c2.Call.StaticCallee().Name(), "tryToGetImportedEnumValue") {
+				return false
+			}
+			derived := false
+			for _, a := range c2.Call.Args {
+				backSlice(a, func(x ssa.Value) bool {
+					if x == ssa.Value(c) {
+						derived = true
+					}
+					return true
+				})
+			}
+			return derived
+		}
 		prints := false
 		for _, later := range instrsAfter(c) {
-			if c2, ok := later.(*ssa.Call); ok && c2.Call.StaticCallee() != nil && (c2.Call.StaticCallee().Name() == "printNumber") && b.Dominates(c2.Block()) {
+			if c2, ok := later.(*ssa.Call); ok && printsValue(c2) && b.Dominates(c2.Block()) {
 				prints = true
 			}
 		}
@@ -299,7 +359,7 @@ func c06EnumInliningNotOnTargets(p *Prog) *RuleResult {
 		// the block that prints the constant must be control dependent on a test of the flags parameter
 		var printBlock *ssa.BasicBlock
 		for _, later := range instrsAfter(c) {
-			if c2, ok := later.(*ssa.Call); ok && c2.Call.StaticCallee() != nil && c2.Call.StaticCallee().Name() == "printNumber" && b.Dominates(c2.Block()) && printBlock == nil {
+			if c2, ok := later.(*ssa.Call); ok && printsValue(c2) && b.Dominates(c2.Block()) && printBlock == nil {
 				printBlock = c2.Block()
 			}
 		}
